@@ -550,6 +550,11 @@ def pulseChars (env : Env) (ascii : Bool) : List Char :=
     List.replicate (pulseSize / 2) bar ++ List.replicate (pulseSize - pulseSize / 2) (if env.noColor then ' ' else bar)
   else List.replicate pulseSize bar
 
+/-- `l[start:stop]` for `0 ≤ start` and any Python int `stop` (a negative `stop` counts from the end). -/
+def pySlice {α : Type} (l : List α) (start stop : Int) : List α :=
+  let stop' : Int := if stop < 0 then max 0 ((l.length : Int) + stop) else min stop l.length
+  (l.take stop'.toNat).drop start.toNat
+
 /-- `ProgressBar.__rich_console__` (progress_bar.py:154-197). -/
 def progressConsole (env : Env) (o : ProgressOpts) (w : Int) : List (Segment σ) :=
   let width := barWidth o.width w
@@ -560,7 +565,7 @@ def progressConsole (env : Env) (o : ProgressOpts) (w : Int) : List (Segment σ)
     -- `int(width / segment_count) + 2` copies; `int(-current_time * 15) % segment_count`
     let segs := (List.replicate (Int.tdiv width count + 2).toNat ps).flatten
     let offset := (Int.tdiv (-(o.time.num) * 15) o.time.den) % count
-    ((segs.drop offset.toNat).take width.toNat).map (fun ch => seg [ch])
+    (pySlice segs offset (offset + width)).map (fun ch => seg [ch])
   else
     -- completed = min(total, max(0, completed))
     let c0 : Rat' := if o.completed.lt ⟨0, 1⟩ then ⟨0, 1⟩ else o.completed
